@@ -83,11 +83,15 @@ def length_rule(rep, subj, segs, sp):
         rep.ob('length-field', subj, False, 'descriptor does not start with a constant tag byte', sp=sp); return
     t = tag[1][1]
     if t & 0x80:
-        lf = segs[1] if len(segs) > 1 else None
-        following = seqlen(segs[2:])
-        ok = lf is not None and lf[0] == 'int' and lf[2] == 2 and equal(lf[1], following)[0]
-        rep.ob('length-field', subj, ok, 'large item declares %s bytes but %s follow the length field' % (show(lf[1]) if lf else None, show(following)), sp=sp,
-               detail={'declared': show(lf[1]) if lf else None, 'following': show(following)})
+        # the 16-bit little-endian field after the tag, however the serialiser chunks it (one word or two bytes)
+        val = ZERO; got = 0; k = 1
+        while k < len(segs) and got < 2 and segs[k][0] == 'int' and got + segs[k][2] <= 2:
+            val = add(val, mul(segs[k][1], C(1 << (8 * got)))); got += segs[k][2]; k += 1
+        lf = val if got == 2 else None
+        following = seqlen(segs[k:])
+        ok = lf is not None and equal(lf, following)[0]
+        rep.ob('length-field', subj, ok, 'large item declares %s bytes but %s follow the length field' % (show(lf) if lf is not None else None, show(following)), sp=sp,
+               detail={'declared': show(lf) if lf is not None else None, 'following': show(following)})
     else:
         following = seqlen(segs[1:])
         ok = equal(C(t & 7), following)[0]
